@@ -145,15 +145,23 @@ def strip_comments(src):
     return src
 
 
-def lean_sources():
-    out = []
-    for root, _, files in os.walk(LEAN):
-        if ".lake" in root:
+def lean_sources(modules, extra=()):
+    """Transitive import closure (inside this project) of the given modules + the property's driver."""
+    seen = {}
+    todo = list(modules) + list(extra)
+    while todo:
+        m = todo.pop()
+        if m in seen:
             continue
-        for f in files:
-            if f.endswith(".lean"):
-                out.append(os.path.join(root, f))
-    return sorted(out)
+        p = os.path.join(LEAN, m.replace(".", "/") + ".lean")
+        if not os.path.exists(p):
+            continue
+        seen[m] = p
+        for l in open(p).read().splitlines():
+            mm = re.match(r"\s*import\s+((?:CoapVerif|Driver)\.[\w.]+)", l)
+            if mm:
+                todo.append(mm.group(1))
+    return sorted(seen.values())
 
 
 def build_proofs(ctx, modules):
@@ -212,7 +220,7 @@ def build_proofs(ctx, modules):
         if failed:
             all_ok = False
     # forbidden tokens anywhere in the Lean sources
-    for p in lean_sources():
+    for p in lean_sources(modules, ["Driver." + ctx.prop]):
         for i, l in enumerate(strip_comments(open(p).read()).splitlines(), 1):
             if FORBIDDEN.search(l):
                 ctx.broken.append(("audit", "%s:%d" % (os.path.relpath(p, LEAN), i), "forbidden token: " + l.strip()[:120]))
